@@ -29,8 +29,16 @@ theorem resolveArgs_raw (tp : Option Function) (fv : List PStr) : ∀ (is : List
       simp only [List.getElem?_cons_succ] at hi ha
       exact ih st1 st2 r h2 j ins n a hi hia ha
 
-/-- everything `blocks_to_bytes` guarantees about its result, with one operand list -/
-theorem blocksToBytes_spec (v : Ver) (blocks : List (List Instr)) (addArgs : List Arg) (fv : List PStr) (tp : Option Function)
+/-- the operands `blocks_to_bytes` assembles: resolved against the tables it builds, then widened by its fix-point loop
+    (the first four steps of `blocksToBytes`, nothing else) -/
+def finalArgs (v : Ver) (blocks : List (List Instr)) (addArgs : List Arg) (fv : List PStr) (tp : Option Function) : R (List Int) := do
+  let st ← encInit tp
+  let cv ← collectCells st.cellvars (blocks.flatten.map Instr.arg ++ addArgs)
+  let (_, args0) ← resolveArgs tp fv { st with cellvars := cv } blocks.flatten
+  relax v blocks.flatten (blockStarts blocks 0) (3 * (blocks.flatten.filter fun i => isJump i.arg).length + 3) args0
+
+/-- everything `blocks_to_bytes` guarantees about its result, with one operand list — the one `finalArgs` computes -/
+theorem blocksToBytes_spec' (v : Ver) (blocks : List (List Instr)) (addArgs : List Arg) (fv : List PStr) (tp : Option Function)
     (out : BlocksOut) (h : blocksToBytes v blocks addArgs fv tp = .ok out) :
     ∃ (args0 args : List Int) (fuel : Nat), blocks.flatten.length = args0.length ∧
       relax v blocks.flatten (blockStarts blocks 0) fuel args0 = .ok args ∧
@@ -39,7 +47,8 @@ theorem blocksToBytes_spec (v : Ver) (blocks : List (List Instr)) (addArgs : Lis
       (∀ (j : Nat) (ins : Instr) (a : Int), blocks.flatten[j]? = some ins → args[j]? = some a → OperandInTables out ins.arg a) ∧
       (∀ (j : Nat) (ins : Instr) (s : PStr) (a : Int), blocks.flatten[j]? = some ins → ins.arg = .free s → args[j]? = some a →
         ∃ idx, indexOfStr s fv = some idx ∧ a = ((out.cellvars.length + idx : Nat) : Int)) ∧
-      (∀ (j : Nat) (ins : Instr) (n a : Int), blocks.flatten[j]? = some ins → ins.arg = .raw n → args[j]? = some a → a = n) := by
+      (∀ (j : Nat) (ins : Instr) (n a : Int), blocks.flatten[j]? = some ins → ins.arg = .raw n → args[j]? = some a → a = n) ∧
+      finalArgs v blocks addArgs fv tp = .ok args := by
   obtain ⟨argsA, hcA, hlA, hopA⟩ := blocksToBytes_operands v blocks addArgs fv tp out h
   obtain ⟨argsB, hcB, hfB⟩ := blocksToBytes_free v blocks addArgs fv tp out h
   -- both theorems speak of the operand list the function computed; recover it once more to name it
@@ -62,7 +71,7 @@ theorem blocksToBytes_spec (v : Ver) (blocks : List (List Instr)) (addArgs : Lis
     unfold blocksToBytes
     simp only [h0, hcv, hres, hrelax, hadd, hn, hv, hc, hk, bind, Except.bind, pure, Except.pure, h]
   obtain ⟨argsA', hcA', hlA', hopA'⟩ := blocksToBytes_operands v blocks addArgs fv tp out hout
-  refine ⟨args0, args, _, hal, hrelax, by rw [← h], by rw [← h], hrl, ?_, ?_, ?_⟩
+  refine ⟨args0, args, _, hal, hrelax, by rw [← h], by rw [← h], hrl, ?_, ?_, ?_, ?_⟩
   · -- re-derive for *this* operand list (same proof as `blocksToBytes_operands`, whose witness is this list)
     obtain ⟨i1, _, hlen, hargs⟩ := resolveArgs_spec tp fv _ _ _ _ i0' hres
     obtain ⟨_, e2⟩ := addAdditional_spec tp fv _ _ _ i1 hadd
@@ -118,6 +127,21 @@ theorem blocksToBytes_spec (v : Ver) (blocks : List (List Instr)) (addArgs : Lis
     have hnj := relax_nonjump v _ _ _ _ _ hal hrelax j ins hi (by simp [hia, isJump])
     rw [ha] at hnj
     exact resolveArgs_raw tp fv _ _ _ _ hres j ins n a hi hia hnj.symm
+  · unfold finalArgs
+    simp only [h0, hcv, hres, hrelax, bind, Except.bind]
+
+theorem blocksToBytes_spec (v : Ver) (blocks : List (List Instr)) (addArgs : List Arg) (fv : List PStr) (tp : Option Function)
+    (out : BlocksOut) (h : blocksToBytes v blocks addArgs fv tp = .ok out) :
+    ∃ (args0 args : List Int) (fuel : Nat), blocks.flatten.length = args0.length ∧
+      relax v blocks.flatten (blockStarts blocks 0) fuel args0 = .ok args ∧
+      out.code = (emit blocks.flatten args 0).1 ∧ out.lm = ⟨(emit blocks.flatten args 0).2.1, (emit blocks.flatten args 0).2.2⟩ ∧
+      args.length = blocks.flatten.length ∧
+      (∀ (j : Nat) (ins : Instr) (a : Int), blocks.flatten[j]? = some ins → args[j]? = some a → OperandInTables out ins.arg a) ∧
+      (∀ (j : Nat) (ins : Instr) (s : PStr) (a : Int), blocks.flatten[j]? = some ins → ins.arg = .free s → args[j]? = some a →
+        ∃ idx, indexOfStr s fv = some idx ∧ a = ((out.cellvars.length + idx : Nat) : Int)) ∧
+      (∀ (j : Nat) (ins : Instr) (n a : Int), blocks.flatten[j]? = some ins → ins.arg = .raw n → args[j]? = some a → a = n) :=
+  let ⟨a0, a, f, h1, h2, h3, h4, h5, h6, h7, h8, _⟩ := blocksToBytes_spec' v blocks addArgs fv tp out h
+  ⟨a0, a, f, h1, h2, h3, h4, h5, h6, h7, h8⟩
 
 end CDV
 
@@ -256,8 +280,7 @@ theorem encode_reads_like_data (v : Ver) (T : OpTable) (blocks : List (List Inst
     (htable : LT.fromLineMapping v.is310 ⟨out.lm.lines.map (fun p => (p.1, p.2.map (· - fln))), out.lm.extra⟩ = .ok table)
     (argc pos kw nl ss fl : Nat) (fname name : PStr)
     (hkind : ∀ ins ∈ blocks.flatten, KindOK T ins) (hopb : ∀ ins ∈ blocks.flatten, ins.op < 256)
-    (henc : ∀ args0 args fuel, relax v blocks.flatten (blockStarts blocks 0) fuel args0 = .ok args →
-      ∀ p ∈ blocks.flatten.zip args, Encodable p.1 p.2)
+    (henc : ∀ args, finalArgs v blocks addArgs fv tp = .ok args → ∀ p ∈ blocks.flatten.zip args, Encodable p.1 p.2)
     (hst : ∀ s ∈ blockStarts blocks 0, s < blocks.flatten.length) (hne : blocks.flatten ≠ [])
     (hlines : v.is310 = false → ∀ ins ∈ blocks.flatten, ins.line.isSome) :
     (Spec.read v T (.mk argc pos kw nl ss fl fln out.code table fname name out.names out.varnames fv out.cellvars consts')).length
@@ -265,8 +288,8 @@ theorem encode_reads_like_data (v : Ver) (T : OpTable) (blocks : List (List Inst
     ∀ (j : Nat) (ins : Instr) (s : Spec.SInstr), blocks.flatten[j]? = some ins →
       (Spec.read v T (.mk argc pos kw nl ss fl fln out.code table fname name out.names out.varnames fv out.cellvars consts'))[j]? = some s →
       s.op = ins.op ∧ s.line = ins.line ∧ ArgSays (blockStarts blocks 0) out.consts ins.arg s.arg := by
-  obtain ⟨args0, args, fuel, hal, hrelax, hcode, hlm, hlen, hops, hfree, hraw⟩ := blocksToBytes_spec v blocks addArgs fv tp out h
-  have hencA := henc args0 args fuel hrelax
+  obtain ⟨args0, args, fuel, hal, hrelax, hcode, hlm, hlen, hops, hfree, hraw, hfinal⟩ := blocksToBytes_spec' v blocks addArgs fv tp out h
+  have hencA := henc args hfinal
   have hl' : blocks.flatten.length = args.length := hlen.symm
   rw [read_eq, hcode, read_emit blocks.flatten args hl' hencA hopb]
   -- offsets CPython sees
